@@ -5,6 +5,7 @@ import (
 	"fmt"
 	"sort"
 	"strings"
+	gosync "sync"
 
 	"oras.land/oras-go/v2/internal/syncutil"
 	"verif.local/engine/driver"
@@ -52,6 +53,7 @@ func seamJobs(th bool) []driver.Job {
 
 func mergeSeam(c *driver.Ctx, failMode string) (func(), func(*vs.Result) *driver.Fail) {
 	var m syncutil.Merge[int]
+	var mon gosync.Mutex // monitor bookkeeping (real lock: only matters in the free-running race pass)
 	var batches [][]int
 	var events []string
 	nprep, nres := 0, 0
@@ -64,6 +66,8 @@ func mergeSeam(c *driver.Ctx, failMode string) (func(), func(*vs.Result) *driver
 				errs[i] = m.Do(i,
 					func() error {
 						vs.Pt("prepare")
+						mon.Lock()
+						defer mon.Unlock()
 						nprep++
 						events = append(events, "prepare")
 						if failMode == "prepare-first" && nprep == 1 {
@@ -73,6 +77,8 @@ func mergeSeam(c *driver.Ctx, failMode string) (func(), func(*vs.Result) *driver
 					},
 					func(items []int) error {
 						vs.Pt("resolve")
+						mon.Lock()
+						defer mon.Unlock()
 						nres++
 						batches = append(batches, append([]int{}, items...))
 						events = append(events, fmt.Sprintf("resolve%v", items))
@@ -160,7 +166,8 @@ func poolSeam(c *driver.Ctx) (func(), func(*vs.Result) *driver.Fail) {
 	type obj struct{ id int }
 	next := 0
 	var p syncutil.Pool[*obj]
-	p.New = func() *obj { next++; return &obj{next} }
+	var mon gosync.Mutex
+	p.New = func() *obj { next++; return &obj{next} } // called with the pool's own lock held
 	type use struct{ g, id, enter, leave int }
 	var uses []use
 	clock := 0
@@ -174,12 +181,16 @@ func poolSeam(c *driver.Ctx) (func(), func(*vs.Result) *driver.Fail) {
 			}
 			vs.Go(func() {
 				v, release := p.Get(key)
+				mon.Lock()
 				clock++
 				u := use{g: g, id: (*v).id, enter: clock}
+				mon.Unlock()
 				vs.Pt("using")
+				mon.Lock()
 				clock++
 				u.leave = clock
 				uses = append(uses, u)
+				mon.Unlock()
 				release()
 				vs.Send(done, g)
 			})
